@@ -236,9 +236,12 @@ func (s *Service) Bind(ctx context.Context, address string) error {
 	}
 	s.mutex.Unlock()
 
-	s.parseAddress(address)
+	err := s.parseAddress(address)
+	if err != nil {
+		return err
+	}
 
-	err := s.setListener(ctx)
+	err = s.setListener(ctx)
 	if err != nil {
 		return err
 	}
